@@ -49,6 +49,11 @@ def atoms():
         S("HELP_D2"),
         S("HELP_IF"),
         ["=", S("HELP_N"), C("4")],
+        # choice members: of an open choice (one of them target-gated, one user-gated) and of a choice that is
+        # itself hidden for one target
+        S("MB"),
+        S("MC"),
+        S("GA"),
     ]
 
 
@@ -90,7 +95,14 @@ def base_entries(target):
         {"k": "if", "c": S("UB"), "children": [mk_config("HELP_IF", "bool", defaults=[{"v": ["y"], "c": Y}])]},
         {"k": "menu", "title": "hm", "dep": ["<", S("UI"), C("5")], "visif": Y, "children": [mk_config("HELP_N", "int", defaults=[{"v": C("4"), "c": Y}])]},
     ]
+    m = lambda n, p=Y: mk_config(n, "bool", prompt=p)  # noqa: E731
+    ents += [
+        {"k": "choice", "id": "CHD", "title": "mode", "prompt": [Y], "dep": Y, "defaults": [{"m": "MB", "c": S("IDF_TARGET_CHIPB")}],
+         "children": [m("MA"), m("MB", S("IDF_TARGET_CHIPB")), m("MC", S("UB"))]},
+        {"k": "choice", "id": "CHG", "title": "gated mode", "prompt": [S("IDF_TARGET_CHIPB")], "dep": Y, "defaults": [], "children": [m("GA"), m("GB")]},
+    ]
     vars_ = [
+        {"n": "CHD", "kind": "choice", "cands": [NOVAL, "MC"]},
         {"n": "HIDP", "kind": "sym", "cands": [NOVAL, "n"]},
         {"n": "FORCED", "kind": "sym", "cands": [NOVAL, "y"]},
         {"n": "UB", "kind": "sym", "cands": [NOVAL, "y"]},
@@ -128,6 +140,8 @@ def programs(rng, tier):
             for e in ktree.walk(ents):
                 if e["k"] == "config" and ["s", e["name"]] not in order:
                     order.append(["s", e["name"]])
+                elif e["k"] == "choice" and ["ch", e["id"]] not in order:
+                    order.append(["ch", e["id"]])
             out.append({"prog": ents, "ord": order, "vars": [dict(v) for v in vars_], "target": target})
     return out
 
